@@ -316,8 +316,9 @@ class Ctx:
             'violations': len(new) + (1 if (self.broken and not new) else 0),
         }
         ev['coverage'].update(self.extra)
-        os.makedirs(os.path.join(HOME, 'evidence'), exist_ok=True)
-        json.dump(ev, open(os.path.join(HOME, 'evidence', self.pid + '.json'), 'w'), indent=1, default=str)
+        evdir = os.environ.get('VERIF_EVIDENCE_DIR') or os.path.join(HOME, 'evidence')     # (seedtest redirects it: runs against mutated trees are not evidence)
+        os.makedirs(evdir, exist_ok=True)
+        json.dump(ev, open(os.path.join(evdir, self.pid + '.json'), 'w'), indent=1, default=str)
         for l in lines:
             print(l)
         print('%s %s: %d/%d obligations, %d cases (%d distinct non-trivial), correspondence %s, %d new violation(s), %.1fs' % (
